@@ -13,6 +13,7 @@ import (
 	"verifharness/mon"
 	"verifharness/refbmc"
 
+	"github.com/cenkalti/backoff/v4"
 	"github.com/gebn/bmc"
 	"github.com/gebn/bmc/pkg/dcmi"
 	"github.com/gebn/bmc/pkg/ipmi"
@@ -80,6 +81,7 @@ func c05Gen(tier string, seed int64) []ev.Case {
 	}
 	cs = append(cs, ev.MkCase("batch", c05Batch{Ring: "strings", Seed: seed, Count: 20}))
 	cs = append(cs, ev.MkCase("batch", c05Batch{Ring: "pads", Seed: seed}))
+	cs = append(cs, ev.MkCase("batch", c05Batch{Ring: "budget", Seed: seed}))
 	nsr := 4000
 	if tier == "thorough" {
 		nsr = 1000000
@@ -162,6 +164,8 @@ func c05Exec(run *ev.Run, c ev.Case) {
 		var b c05Batch
 		c.Decode(&b)
 		switch b.Ring {
+		case "budget":
+			c05Budget(run, b.Seed, c)
 		case "struct":
 			c05Struct(run, specByName(b.Layer), b.Seed)
 		case "random":
@@ -972,6 +976,70 @@ func c05SuiteRecords(run *ev.Run, seed int64, count int) {
 		run.Eval(1)
 		if n > 66 {
 			run.Violation("C05:unbounded:suites", fmt.Sprintf("a BMC answering every list index with a full chunk was asked %d times", n), cs, nil)
+		}
+	}
+}
+
+// c05Budget: the retry loops are bounded by the back-off policy as well as by the
+// context. With a policy that allows four retries, a BMC that answers every
+// attempt with a temporary code (or garbage, or a stray) and a caller context
+// without a deadline, a call must end after at most five transmissions.
+func c05Budget(run *ev.Run, seed int64, cs ev.Case) {
+	for mi, mode := range []string{"sl", "in", "hs"} {
+		for oi, outcome := range []string{"busy", "tmo", "garbage:noise", "stray:othercmd", "garbage:reflect", "busy-tmo-alternating"} {
+			run.Eval(1)
+			r := rng(seed+int64(mi*10+oi), "c05budget")
+			cfg := defaultCfg(r)
+			se := NewScriptEnv(cfg, memtr.Exact)
+			se.ST = bmc.VerifNewV2SessionlessTransport(se.T, 5*time.Second, backoff.WithMaxRetries(&backoff.ZeroBackOff{}, 4))
+			var conn bmc.Connection = se.ST
+			ctx, cancel := context.WithCancel(context.Background())
+			stop := time.AfterFunc(30*time.Second, cancel) // watchdog only: the verdict is the transmission count
+			desc := fmt.Sprintf("mode %s, every attempt answered with %s, back-off policy allowing 4 retries, context without deadline", mode, outcome)
+			if mode == "in" {
+				// the session is opened through a connection with an ordinary policy
+				s, err := se.OpenSession(ctx, stdSuites()[int(seed+int64(oi))%9])
+				if err != nil {
+					run.Violation("C05:flow-baseline:budget", desc+": "+err.Error(), cs, nil)
+					stop.Stop()
+					cancel()
+					continue
+				}
+				conn = s
+			}
+			script := make([]string, 400)
+			for i := range script {
+				script[i] = outcome
+				if outcome == "busy-tmo-alternating" {
+					script[i] = []string{"busy", "tmo"}[i%2]
+				}
+			}
+			before := se.T.Transmissions()
+			var err error
+			var pv any
+			var st string
+			if mode == "hs" {
+				se.Filter2 = func(req, reply []byte) []byte { return []byte{6, 0, 0xff, 7, 6, 0x55, 1} }
+				pv, st = safe(func() { _, err = se.OpenSession(ctx, stdSuites()[oi%9]) })
+				se.Filter2 = nil
+			} else {
+				cmd, okBody, _, _, _ := c10Cmd([]string{"sl-guid", "devid"}[mi%2])
+				se.st = &scriptState{script: script, okBody: okBody}
+				pv, st = safe(func() { _, err = conn.SendCommand(ctx, cmd) })
+				se.st = nil
+			}
+			stop.Stop()
+			cancel()
+			n := se.T.Transmissions() - before
+			run.Event("transmissions", n)
+			run.Nontrivial("budget|" + mode + "|" + outcome)
+			if pv != nil {
+				run.Violation("C05:panic:"+panicSite(st), fmt.Sprintf("%s: %v", desc, pv), cs, nil)
+				continue
+			}
+			if n > 5 || err == nil {
+				run.Violation("C05:unbounded:retry-budget", fmt.Sprintf("%s: %d transmissions (err=%v); the policy allows the first attempt and four retries", desc, n, err), cs, nil)
+			}
 		}
 	}
 }
